@@ -1,0 +1,12 @@
+//go:build verif
+// +build verif
+
+package tars
+
+import "github.com/TarsCloud/TarsGo/tars/transport"
+
+// Verification hook (build tag verif only): the transport server the default application created for obj
+// (nil when there is none). Read-only.
+func VerifC12Server(obj string) *transport.TarsServer {
+	return defaultApp.goSvrs[obj]
+}
